@@ -36,6 +36,10 @@ def gen(rng, tier):
             if rng.random() < 0.4:
                 st['pre_fail']['idx'] = sorted(set(st['pre_fail']['idx']) | {0})
     sc = {'n': n, 'family': family, 'stages': [st], 'src_delays': [rng.choice([0, 0, 0.001])]}
+    if family == 'fifo' and n and rng.random() < 0.3:
+        # the submitting function itself refuses an element (as Server._enqueue does with ServerBacklogFull): both variants
+        # must end the stream with that error after the earlier results - it is not the element's result
+        sc['submit_fail'] = {'idx': rng.randrange(n), 'exc': rng.choice(['ExcA', 'KeyError'])}
     if family == 'server':
         st['return_x'] = True  # harness needs x to attribute server results
         sc['capacity'] = rng.choice([1, 2, 4, 16])
@@ -114,6 +118,16 @@ def run(sim, sc):
     flags = dict(return_x=bool(st.get('return_x')), return_exceptions=bool(st.get('return_exceptions')))
     pre = streams.preproc_fn(st.get('pre_fail')) if st.get('pre') else None
     want = streams.reference(dict(sc, stages=[st]))
+    sf = sc.get('submit_fail')
+    if sf is not None:
+        rejected = set(st['pre_fail']['idx']) if st.get('pre_fail') else set()
+        if sf['idx'] not in rejected:  # a rejected element never reaches the submitting function
+            wo, we = streams.reference(dict(sc, n=sf['idx'], stages=[st]))
+            if we is None:
+                we = [sf['exc'], sf['idx']]
+            want = (wo, we)
+        else:
+            sf = None
     results = {}
     fam = sc['family']
 
@@ -123,13 +137,21 @@ def run(sim, sc):
     if fam == 'fifo':
         fn = newfn('sync')
         pool = ThreadPoolExecutor(st['c'], thread_name_prefix='harness-pool')
-        results['fifo_stream'] = _collect_sync(fifo_stream(streams.Source(sim, n, sc['src_delays']), lambda x: pool.submit(fn, x),
+
+        def submit(x):
+            if sf is not None and streams.idx_of(x) == sf['idx']:
+                streams._raise(sf['exc'], x)
+            return pool.submit(fn, x)
+
+        results['fifo_stream'] = _collect_sync(fifo_stream(streams.Source(sim, n, sc['src_delays']), submit,
                                                            capacity=st['cap'], preprocessor=pre, **flags))
         pool.shutdown(wait=True)
         afn = streams.make_async_fn(newfn('async'))
 
         async def main():
             async def func(x):
+                if sf is not None and streams.idx_of(x) == sf['idx']:
+                    streams._raise(sf['exc'], x)
                 return asyncio.get_running_loop().create_task(afn(x))
             return await _collect_async(async_fifo_stream(streams.AsyncSource(sim, n, sc['src_delays']), func,
                                                           capacity=st['cap'], preprocessor=pre, **flags))
